@@ -1,18 +1,20 @@
-import YaclibModel.Proofs.CoSharedMutex
+import YaclibModel.Proofs.CoSharedMutexS_wuFsub_1
+import YaclibModel.Proofs.CoSharedMutexS_wuFsub_2
+import YaclibModel.Proofs.CoSharedMutexS_wuFsub_3
+import YaclibModel.Proofs.CoSharedMutexS_wuFsub_4
+import YaclibModel.Proofs.CoSharedMutexS_wuFsub_5
 namespace Yaclib.CoSharedMutex
 
-set_option maxHeartbeats 4000000 in
 theorem inv_wuFsub {cfg : Cfg} {s : State} (hi : Inv cfg s) (c : Cid) (h : s.pc c = .uLocked) (hs : s.spin = .held c) :
     Inv cfg ((doWuFsub s c)) := by
-  cases hi
   by_cases hb1 : (s.cfg.fifo = true ∧ s.prio ≠ 0)
-  · simp only [doWuFsub, branchOf, hb1, and_self, givesUp, Bool.false_eq_true, ↓reduceIte]; sm_auto [List.count_le_length]
+  · exact inv_wuFsub_1 hi c h hs hb1
   · by_cases hq : s.Q = []
     · by_cases hb2 : (¬ s.cfg.fifo = true ∧ s.W ≠ 1)
-      · simp only [doWuFsub, branchOf, hb1, hq, hb2, ne_eq, not_true_eq_false, and_self, givesUp, Bool.false_eq_true, ↓reduceIte]; sm_auto [List.count_le_length]
-      · simp only [doWuFsub, branchOf, hb1, hq, hb2, ne_eq, not_true_eq_false, givesUp, Bool.false_eq_true, ↓reduceIte]; sm_auto [List.count_le_length]
+      · exact inv_wuFsub_2 hi c h hs hb1 hq hb2
+      · exact inv_wuFsub_3 hi c h hs hb1 hq hb2
     · by_cases hw1 : s.W = 1
-      · simp only [doWuFsub, branchOf, hb1, hq, hw1, ne_eq, not_true_eq_false, not_false_eq_true, givesUp, Bool.false_eq_true, ↓reduceIte]; sm_auto [List.count_le_length]
-      · simp only [doWuFsub, branchOf, hb1, hq, hw1, ne_eq, not_false_eq_true, givesUp, Bool.false_eq_true, ↓reduceIte]; sm_auto [List.count_le_length]
+      · exact inv_wuFsub_4 hi c h hs hb1 hq hw1
+      · exact inv_wuFsub_5 hi c h hs hb1 hq hw1
 
 end Yaclib.CoSharedMutex
